@@ -60,6 +60,8 @@ def run(name, tier="quick"):
     assert out.strip() == "", "/repo is not clean: " + out
     rc, out = sh(f"git apply {dst}/patch.diff", cwd="/repo")
     assert rc == 0, out
+    ev = os.path.join(V, "evidence", f"{prop}.json")
+    ev_saved = open(ev).read() if os.path.exists(ev) else None
     try:
         t0 = time.time()
         rc, out = sh(f"./check {prop} --tier {tier}", cwd=V)
@@ -68,6 +70,8 @@ def run(name, tier="quick"):
                "lines": lines[:6], "wall_s": round(time.time() - t0, 1), "at": time.strftime("%Y-%m-%dT%H:%M:%SZ", time.gmtime())}
     finally:
         sh("git checkout -- .", cwd="/repo")
+        if ev_saved is not None:      # the committed evidence must describe the unchanged tree, not a seeded run
+            open(ev, "w").write(ev_saved)
     meta["check_results"] = [r for r in meta.get("check_results", []) if r.get("tier") != tier] + [res]
     json.dump(meta, open(os.path.join(dst, "meta.json"), "w"), indent=1)
     print(name, "CAUGHT" if res["caught"] else "MISSED", res["lines"][:3])
